@@ -47,7 +47,9 @@ _add("C20", "Pfdl.Props.C20.register_ret", "Pfdl.Props.C20.register_effect", "Pf
      "Pfdl.Props.C20.fanout_service_started", "Pfdl.Props.C20.fanout_other", "Pfdl.Props.C20.listeners_nodup", "Pfdl.Props.C20.each_once")
 _add("C09", "Pfdl.Props.C09.accepted_calls_resolve", "Pfdl.Props.C09.accepted_parallel_branches_resolve",
      "Pfdl.Props.C09.accepted_has_production_task", "Pfdl.Props.C09.accepted_no_direct_recursion",
-     "Pfdl.Props.C09.accepted_limits_are_numbers", "Pfdl.Check.validate_total")
+     "Pfdl.Props.C09.accepted_limits_are_numbers", "Pfdl.Check.validate_total",
+     "Pfdl.Sched.runOps_safe", "Pfdl.accepted_erasure_closed", "Pfdl.Props.C09.no_internal_error", "Pfdl.Props.C09.evaluates_of_fixed_value",
+     "Pfdl.Props.C09.raises_only_for_named_causes")
 _add("C10", "Pfdl.Check.checkStmt_descent", "Pfdl.Check.validate_of_nested_stmt", "Pfdl.Props.C10.nested_fault_reported",
      "Pfdl.Props.C10.unknown_task", "Pfdl.Props.C10.ill_formed_parallel_loop", "Pfdl.Props.C10.singleCall_iff",
      "Pfdl.Props.C10.unknown_variable_as_service_input", "Pfdl.Props.C10.unknown_variable_as_call_input", "Pfdl.Props.C10.call_arity",
